@@ -12,7 +12,7 @@ N5 hazard x defence matrix: every hazardous proposal (machine occupied / on inge
 import ast
 
 from ..index import AnalysisError, is_spawn, walk_no_nested
-from ..norm import Canon, Lit, Logic, effects_of_event
+from ..norm import Canon, Lit, Logic, effects_of_event, path_effects, effects_along
 from ..paths import (Frame, cached_paths, contains_yield, expand, feasible, feasible_consts,
                      function_paths, world_frame)
 from ..simpy_model import witness
@@ -192,8 +192,8 @@ def n3(repo, res, canon, logic):
         if loops:
             for seg, how in iteration_segments(f, loops[-1]):
                 rem = app = False
-                for e in seg:
-                    for ef in effects_of_event(canon, e):
+                for e, _efs in effects_along(canon, seg):
+                    for ef in _efs:
                         if ef.arg == m and ef.kind == 'remove' and ef.loc == AVAIL:
                             rem = True
                         if ef.arg == m and ef.kind == 'append' and ef.loc == INGEST:
@@ -211,7 +211,7 @@ def n3(repo, res, canon, logic):
     ok = False
     for p in cached_paths(f):
         if p.exit == 'raise':
-            effs = [ef for e in p.events for ef in effects_of_event(canon, e)]
+            effs = path_effects(canon, p.events)
             if not effs:
                 tests = [e for e in p.events if e.kind == 'test']
                 if tests and 'len(' in canon.c(tests[0].node, tests[0].frame):
